@@ -76,6 +76,29 @@ func vfGroupLogRun(t testing.TB, w *vfRWorld, sc vfScript) []map[string]any {
 			r.db.Close()
 		}
 	}()
+	msgMode := sc.Cfg["log"] == "message"
+	if msgMode {
+		// every device registers the other's chain key so that listings can open every message
+		for _, x := range []string{"a1", "a2"} {
+			for _, y := range []string{"a1", "a2"} {
+				if x == y {
+					continue
+				}
+				omdY, err := reps[y].ss.GetOwnMemberDeviceForGroup(g)
+				if err != nil {
+					vfInfra("member device: %v", err)
+				}
+				omdX, _ := reps[x].ss.GetOwnMemberDeviceForGroup(g)
+				ann, err := reps[y].ss.GetShareableChainKey(ctx, g, omdX.Member())
+				if err != nil {
+					vfInfra("announcement: %v", err)
+				}
+				if err := reps[x].ss.RegisterChainKey(ctx, g, omdY.Device(), ann); err != nil {
+					vfInfra("register: %v", err)
+				}
+			}
+		}
+	}
 	nc, _ := vfNum(sc.Cfg, "contacts")
 	ng, _ := vfNum(sc.Cfg, "groups")
 	var contacts []*vfGLContact
@@ -97,9 +120,14 @@ func vfGroupLogRun(t testing.TB, w *vfRWorld, sc vfScript) []map[string]any {
 	names := map[string]int{} // entry hash -> creation index
 	byName := map[int]ipfslog.Entry{}
 	seeds := map[string]int{} // rendezvous seed (hex) -> entry that set it
+	mss := func(d string) *MessageStore { return reps[d].gcs[gid].MessageStore() }
 	nameSet := func(d string) []int {
 		out := []int{}
-		for _, id := range vfEntryIDs(ms(d)) {
+		ids := vfEntryIDs(ms(d))
+		if msgMode {
+			ids = vfEntryIDs(mss(d))
+		}
+		for _, id := range ids {
 			if n, ok := names[id]; ok {
 				out = append(out, n)
 			} else {
@@ -176,7 +204,12 @@ func vfGroupLogRun(t testing.TB, w *vfRWorld, sc vfScript) []map[string]any {
 			var op operation.Operation
 			var err error
 			ev["s"], ev["x"] = st.S, st.X
+			if msgMode {
+				before = len(vfEntryIDs(mss(st.D)))
+			}
 			switch st.S {
+			case "msg":
+				op, err = mss(st.D).AddMessage(ctx, []byte(fmt.Sprintf("message %d of script %d", i, sc.ID)))
 			case "en":
 				op, err = m.ContactRequestEnable(ctx)
 			case "dis":
@@ -231,6 +264,9 @@ func vfGroupLogRun(t testing.TB, w *vfRWorld, sc vfScript) []map[string]any {
 				vfInfra("unknown op %q", st.S)
 			}
 			after := len(vfEntryIDs(m))
+			if msgMode {
+				after = len(vfEntryIDs(mss(st.D)))
+			}
 			ev["ok"] = err == nil
 			ev["grew"] = after - before
 			ev["before"] = func() []int { s := nameSet(st.D); return s }()
@@ -250,7 +286,9 @@ func vfGroupLogRun(t testing.TB, w *vfRWorld, sc vfScript) []map[string]any {
 					return out
 				}()
 				// what was appended (decoded from the entry itself, not from the index)
-				if meta, evt, oerr := openMetadataEntry(m.OpLog(), e, g); oerr == nil {
+				if msgMode {
+					ev["evk"] = "msg"
+				} else if meta, evt, oerr := openMetadataEntry(m.OpLog(), e, g); oerr == nil {
 					ev["type"] = meta.Metadata.EventType.String()
 					ev["evk"] = vfEvKinds[meta.Metadata.EventType]
 					if rs, ok := evt.(*protocoltypes.AccountContactRequestReferenceReset); ok {
@@ -264,6 +302,17 @@ func vfGroupLogRun(t testing.TB, w *vfRWorld, sc vfScript) []map[string]any {
 				ev["skip"] = true
 				break
 			}
+			ev["x"] = st.X
+			if msgMode {
+				var src *MessageStore
+				for _, d := range []string{"a1", "a2"} {
+					if _, has := mss(d).OpLog().Get(e.GetHash()); has {
+						src = mss(d)
+					}
+				}
+				vfSyncTo(ctx, mss(st.D), []ipfslog.Entry{e}, vfPast(src, e.GetHash()))
+				break
+			}
 			var src *MetadataStore
 			for _, d := range []string{"a1", "a2"} {
 				if _, has := ms(d).OpLog().Get(e.GetHash()); has {
@@ -271,7 +320,6 @@ func vfGroupLogRun(t testing.TB, w *vfRWorld, sc vfScript) []map[string]any {
 				}
 			}
 			want := vfPast(src, e.GetHash())
-			ev["x"] = st.X
 			vfSyncTo(ctx, ms(st.D), []ipfslog.Entry{e}, want)
 		case "reopen":
 			reps[st.D].Reopen(g)
@@ -287,9 +335,29 @@ func vfGroupLogRun(t testing.TB, w *vfRWorld, sc vfScript) []map[string]any {
 				return []byte("unknown-id")
 			}
 			ev["since"], ev["until"], ev["rev"] = st.X, st.Y, st.S == "rev"
+			got := []int{}
+			nameOf := func(evid []byte) int {
+				for _, nn := range names {
+					if bytes.Equal(byName[nn].GetHash().Bytes(), evid) {
+						return nn
+					}
+				}
+				return -1
+			}
+			if msgMode {
+				ch, err := mss(st.D).ListEvents(ctx, id(st.X), id(st.Y), st.S == "rev")
+				ev["ok"] = err == nil
+				if err == nil {
+					for e := range ch {
+						got = append(got, nameOf(e.EventContext.Id))
+					}
+				}
+				ev["out"] = got
+				ev["has"] = nameSet(st.D)
+				break
+			}
 			ch, err := m.ListEvents(ctx, id(st.X), id(st.Y), st.S == "rev")
 			ev["ok"] = err == nil
-			got := []int{}
 			if err == nil {
 				for e := range ch {
 					n := -1
